@@ -433,6 +433,8 @@ def run_level2(c):
     for x in v:
         sl = x.get("slot")
         x["extended_check"] = c["extended"]
+        if sl is not None and x.get("kind") == "cs-high-on-two-consecutive-slots" and lat is not None:
+            sl -= lat            # this witness is in pad time
         if sl is not None:
             # nearest sent command at or before the slot
             cands = [t for t in chain_start if t <= sl]
